@@ -42,13 +42,21 @@ func verifMkService(id, port string) *nsxService {
 	return &nsxService{Id: id, ServiceEntries: []*nsxServiceEntry{{Id: "id", ResourceType: "L4PortSetServiceEntry", L4Protocol: "TCP", SourcePorts: []string{}, DestinationPorts: []string{port}}}}
 }
 
+// verifSuffixIds: the second device rule is named r1-1 instead of r2
+var verifSuffixIds = false
+
 func verifMkSide(t string, n int, grpIds []string, maxMembers int, svcPort string) *verifSide {
 	s := &verifSide{}
 	used := map[string]bool{}
 	for i := 0; i < n; i++ {
 		rt := t + strconv.Itoa(i)
+		id := "r" + strconv.Itoa(i+1)
+		if t == "a" && i == 1 && verifSuffixIds {
+			// the state an earlier approve leaves after renaming a clashing rule
+			id = "r1-1"
+		}
 		r := &nsxRule{
-			Id:                "r" + strconv.Itoa(i+1),
+			Id:                id,
 			Action:            vf.Pick(rt+".action", []string{"ALLOW", "DROP"}),
 			SequenceNumber:    vf.SelectInt(vf.Int(rt+".seq", 0, verifSeqs-1), []int{20, 30}),
 			DestinationGroups: []string{"10.1.2.40"},
@@ -431,6 +439,10 @@ func VerifNSX() {
 	ids := []string{"Netspoc-g0", "Netspoc-g1"}[:G]
 	n := vf.Int("n", 0, N)
 	m := vf.Int("m", 0, N)
+	verifSuffixIds = N >= 2 && vf.Bool("a.ruleIdsWithSuffix")
+	if verifSuffixIds {
+		vf.Cover("device rules named X and X-1")
+	}
 	dA := verifMkSide("a", n, ids, MM, vf.Pick("a.port", []string{"80", "81"}))
 	dB := verifMkSide("b", m, ids, MM, "80")
 	if G > 0 && vf.Bool("leftoverGroup") {
